@@ -59,6 +59,10 @@ ASSUMPTIONS = [
 ]
 
 CLEAN_REFUSALS = ("DuplicateKey", "KeyError", "ValueError", "CantMoveRoot", "FileExistsError", "IsADirectoryError", "DeadSlot")
+# KeyError is the documented answer of the cancel_* calls and of set_executability(None) on an id that has nothing to cancel.  From the
+# path-changing ops it comes out of the limbo bookkeeping (DiskTreeTransform.adjust_path updates _limbo_children after the move was
+# recorded): the transform is half updated then, so the case is abandoned like after any other scheduling error.
+NO_KEYERROR_REFUSAL = ("adjust_path", "limbo_chain", "shadow", "tree_path_move", "new_file", "new_directory", "new_symlink", "create_path")
 MAX_PASSES = 10
 
 
@@ -300,7 +304,7 @@ def build_start_tree(ctx, rng, fmt):
 
     names = gen.Names(ctx.tier)
     W = dict(gen.DEFAULT_WEIGHTS)
-    W.update({"add": 16, "mkfile": 8, "mkdir": 5, "symlink": 2, "chmod": 7})
+    W.update({"add": 16, "mkfile": 8, "mkdir": 5, "symlink": 2, "chmod": 10})
     log = []
     if fmt == "2a" and rng.random() < 0.12:
         h = gen.build_history(ctx, rng, fmt, nrevs=rng.randint(2, 4), nbranches=2, names=names, weights=W)
@@ -550,7 +554,7 @@ def case(ctx):
                 raise
             except Exception as e:
                 name = type(e).__name__
-                if name not in CLEAN_REFUSALS:
+                if name not in CLEAN_REFUSALS or (name == "KeyError" and op["op"] in NO_KEYERROR_REFUSAL):
                     # the property is about previews and the resolver, not about scheduling errors: recorded, case abandoned
                     ctx.hist("op-exception:%s:%s:%s" % (label, op["op"], name))
                     script[-1]["raised"] = name
@@ -1069,7 +1073,14 @@ def replay_transform_preview(ctx, orig, ops, refusals, res, git, label, p, befor
             pass
         snap = take_preview(ctx, tp, owt, git, label, before, "tp", nameless(ops))
     finally:
-        tp.finalize()
+        try:
+            tp.finalize()
+        except (KeyboardInterrupt, SystemExit):
+            raise
+        except Exception as e:
+            # a preview transform only has its own limbo directory to clean up
+            ctx.fail("finalize:raised:%s:preview-transform:%s@%s:%s" % (label, type(e).__name__, _where(e.__traceback__), R.attribute("other", shapes or ())),
+                     "TransformPreview.finalize() raised %r" % (e,), {"traceback": traceback.format_exc()[-1500:]})
     if snap is None or snap["view"] is None:
         return
     try:
